@@ -11,6 +11,7 @@ import (
 	"fmt"
 	"os"
 	"path/filepath"
+	"runtime/debug"
 	"runtime/pprof"
 	"sort"
 	"strings"
@@ -82,6 +83,11 @@ func register(id, explanation string, rules ...ruleFunc) {
 }
 
 func main() {
+	// a soft ceiling for the collector (the path tables of the thorough tier otherwise let the heap double
+	// past 17 GB before a collection); GOMEMLIMIT in the environment overrides it
+	if os.Getenv("GOMEMLIMIT") == "" {
+		debug.SetMemoryLimit(6 << 30)
+	}
 	if len(os.Args) > 1 && os.Args[1] == "concrete" {
 		os.Exit(concreteMain(os.Args[2:]))
 	}
